@@ -135,7 +135,8 @@ def parseView : Nat → List String → Option (Option View × List String)
         pure (some (.forKeyed sel ls), r)
       | [] => none
     else if t == "susp" then do
-      let (_, r) ← parseView f rest
+      let (_, r) ← parseExpr (f + 1) rest
+      let (_, r) ← parseView f r
       pure (none, r)
     else if t == "errb" then do
       let (_, r) ← parseExpr (f + 1) rest
